@@ -1,3 +1,4 @@
+mod alg;
 mod codec;
 mod model;
 mod pairs;
@@ -54,10 +55,15 @@ fn do_replay<P: PT>(opts: &HashMap<String, String>) -> Value {
     let maxmm = opts.get("max-mismatch").map(|s| s.parse().unwrap()).unwrap_or(20);
     let coll = opts.get("coll").map(|s| s.as_str()).unwrap_or("map");
     let mut rep = replay::Report::default();
+    let mut side_file = opts.get("side").map(|p| std::io::BufWriter::new(std::fs::File::create(p).unwrap()));
+    let side: Option<&mut dyn Write> = side_file.as_mut().map(|f| f as &mut dyn Write);
     if coll == "set" {
-        replay::replay_rows::<P, PrefixSet<P>>(&mut rd as &mut dyn BufRead, &ctx, maxmm, &mut rep);
+        replay::replay_rows::<P, PrefixSet<P>>(&mut rd as &mut dyn BufRead, &ctx, maxmm, &mut rep, side);
     } else {
-        replay::replay_rows::<P, PrefixMap<P, i32>>(&mut rd as &mut dyn BufRead, &ctx, maxmm, &mut rep);
+        replay::replay_rows::<P, PrefixMap<P, i32>>(&mut rd as &mut dyn BufRead, &ctx, maxmm, &mut rep, side);
+    }
+    if let Some(f) = side_file.as_mut() {
+        f.flush().unwrap();
     }
     replay::report_json(&rep, P::NAME, coll)
 }
@@ -94,10 +100,40 @@ fn do_trace<P: PT>(opts: &HashMap<String, String>) -> Value {
     r
 }
 
+fn do_alg<P: PT>(opts: &HashMap<String, String>) -> Value {
+    let seed = opts.get("seed").map(|s| s.parse().unwrap()).unwrap_or(1u64);
+    let mode = opts.get("mode").map(|s| s.as_str()).unwrap_or("quick");
+    let path = opts.get("trace").expect("--trace FILE");
+    let mut f = std::io::BufWriter::new(std::fs::File::create(path).unwrap());
+    let r = alg::run::<P>(seed, mode, &mut f);
+    f.flush().unwrap();
+    r
+}
+
 fn main() {
     // panics of the code under test are data; keep stderr quiet
     std::panic::set_hook(Box::new(|_| {}));
     let (cmd, opts) = args_map();
+    // watchdog: a call of the code under test that does not return within the limit is reported as
+    // divergence (exit status 3, the event on stdout) instead of hanging the check
+    let limit = opts.get("call-timeout").map(|s| s.parse().unwrap()).unwrap_or(20u64);
+    let out_path = opts.get("out").cloned();
+    std::thread::spawn(move || loop {
+        std::thread::sleep(std::time::Duration::from_millis(500));
+        let stalled = match model::CURRENT.lock() {
+            Ok(g) => g.as_ref().and_then(|(t, e)| if t.elapsed().as_secs() >= limit { Some(e.clone()) } else { None }),
+            Err(_) => None,
+        };
+        if let Some(e) = stalled {
+            let ev: Value = serde_json::from_str(&e).unwrap_or(json!({}));
+            let s = serde_json::to_string(&json!({"diverged": true, "event": ev})).unwrap();
+            if let Some(p) = &out_path {
+                let _ = std::fs::write(p, &s);
+            }
+            println!("{s}");
+            std::process::exit(3);
+        }
+    });
     let out: Value = match cmd.as_str() {
         "replay" => {
             let t = opts.get("type").map(|s| s.as_str()).unwrap_or("u32");
@@ -111,12 +147,17 @@ fn main() {
             let t = opts.get("type").map(|s| s.as_str()).unwrap_or("u32");
             with_type!(t, do_trace(&opts))
         }
+        "alg" => {
+            let t = opts.get("type").map(|s| s.as_str()).unwrap_or("u32");
+            with_type!(t, do_alg(&opts))
+        }
         "types" => json!(ALL_TYPES),
         _ => {
             eprintln!("usage: verif-harness replay --type T --coll map|set --ctx plain|stretch:K --rows FILE [--out FILE]");
             std::process::exit(2);
         }
     };
+    model::watch_end();
     let s = serde_json::to_string(&out).unwrap();
     if let Some(p) = opts.get("out") {
         std::fs::write(p, s).unwrap();
